@@ -42,7 +42,7 @@ func inMemorySources(s *gen.MsgSpec, r *mrand.Rand) {
 	fix := func(fs []gen.FileSpec) {
 		for i := range fs {
 			switch fs[i].Source {
-			case "osfile", "osfile-rs", "iofs":
+			case "osfile", "osfile-rs", "iofs", "bbuf":
 				fs[i].Source = gen.Pick(r, []string{"reader", "readseeker", "writer"})
 			}
 		}
@@ -124,7 +124,13 @@ func runC12Case(r *ev.Run, c c12Case) (accepted int64, failed bool) {
 	}
 	faulty := o.sink.Failed || len(c.Faults) > 0
 	if faulty && o.err == nil {
-		viol("silent-success:"+faultKind, fmt.Sprintf("WriteTo returned nil although a fault was injected (%s; sink refused a write: %t)", faultKind, o.sink.Failed), nil)
+		ek := ""
+		for _, f := range c.Faults {
+			if f.ErrKind != "" {
+				ek = ":producer-error=" + f.ErrKind
+			}
+		}
+		viol("silent-success:"+faultKind+ek, fmt.Sprintf("WriteTo returned nil although a fault was injected (%s%s; sink refused a write: %t)", faultKind, ek, o.sink.Failed), nil)
 	}
 	if !faulty && o.err != nil {
 		viol("error-without-fault", "WriteTo failed on a fault-free render: "+o.err.Error(), nil)
@@ -284,10 +290,13 @@ func runC12(r *ev.Run, rep *ev.ReplayDoc) ev.Summary {
 		}
 		for _, p := range producers(&s) {
 			for _, after := range []int{0, 1, 7, -1} {
-				jobs = append(jobs, job{c12Case{Spec: s, SinkLimit: -1, Faults: map[string]gen.Fault{p: {After: after}}}})
+				// the producer fails with different error values (a failure is a failure whatever the value is)
+				for _, kind := range []string{"", "eof", "unexpected-eof", "wrapped-eof", "closed-pipe"} {
+					jobs = append(jobs, job{c12Case{Spec: s, SinkLimit: -1, Faults: map[string]gen.Fault{p: {After: after, ErrKind: kind}}}})
+				}
 				// producer fault together with a sink fault at a few offsets
 				for j := 0; j < 3; j++ {
-					jobs = append(jobs, job{c12Case{Spec: s, SinkLimit: rng.Int63n(L + 1), Faults: map[string]gen.Fault{p: {After: after}}}})
+					jobs = append(jobs, job{c12Case{Spec: s, SinkLimit: rng.Int63n(L + 1), Faults: map[string]gen.Fault{p: {After: after, ErrKind: []string{"", "eof", "wrapped-eof"}[j]}}}})
 				}
 			}
 		}
@@ -302,7 +311,7 @@ func runC12(r *ev.Run, rep *ev.ReplayDoc) ev.Summary {
 		runC12Case(r, c)
 		fs := ""
 		for k, f := range c.Faults {
-			fs += fmt.Sprintf("%s@%d", k, f.After)
+			fs += fmt.Sprintf("%s@%d%s", k, f.After, f.ErrKind)
 		}
 		r.Eval(fmt.Sprintf("%s|%d|%t|%s", c.Spec.ID, c.SinkLimit, c.Short, fs), true)
 	})
